@@ -746,10 +746,10 @@ def stepG (d : DSt) (w : List String) : DSt × String :=
   let g := d.g
   let lineG (r : String) (c : String) (alts : List (String × String)) : String :=
     s!"R {r} | C {c} | I ret=0 | S " ++ " || ".intercalate (alts.map fun a => s!"{a.1} ; {a.2}")
-  let plain (g' : GSt) (r : String) : DSt × String :=
+  let plain (g' : GSt) (r : String) (iret : String := "0") : DSt × String :=
     let c := fmtG g'.made g'.balive g'.bcount 0 0 false false g'.metas
     let cs := fmtG g'.made (!g'.bdead) g'.refs 0 0 false false g'.metas
-    ({ d with g := g' }, lineG r c [(r, cs)])
+    ({ d with g := g' }, s!"R {r} | C {c} | I ret={iret} | S {r} ; {cs}")
   -- a new buffer metatype tries to take a reference (`kind`: (alive, mbuf, holds) of the new object given "holds")
   let acquire (g0 : GSt) (r : String) : DSt × String :=
     let (g1, ret, dead) := g0.addrefM
@@ -799,11 +799,11 @@ def stepG (d : DSt) (w : List String) : DSt × String :=
     | none => (d, "bad-op")
   | ["g", "take", ms] =>
     match ms.toNat? with
-    | some i => if living i then plain g "refused" else (d, "bad-op")
+    | some i => if living i then plain g "refused" "BadOperation" else (d, "bad-op")
     | none => (d, "bad-op")
   | ["g", "wrap", ms] =>
     match ms.toNat? with
-    | some i => if living i then plain g "refused" else (d, "bad-op")
+    | some i => if living i then plain g "refused" "BadOperation" else (d, "bad-op")
     | none => (d, "bad-op")
   | ["g", "clone", ms] =>
     match ms.toNat? with
